@@ -778,7 +778,7 @@ def run(ck):
             if all(b[nm - 1] is not None for nm in required_outside):
                 vals = dict((pname(i + 1), pval(v)) for i, v in enumerate(b) if v is not None)
                 ref = lst[0][3]
-                for style in ("dict", "object", "keyword-dict"):
+                for style in ("dict", "dict-reversed", "object", "keyword-dict"):
                     try:
                         if style == "object":
                             o = c0.factory.create("Wrapper")
@@ -787,6 +787,8 @@ def run(ck):
                             r0 = call_client(c0, rec0, [o], {})
                         elif style == "dict":
                             r0 = call_client(c0, rec0, [dict(vals)], {})
+                        elif style == "dict-reversed":      # key order of the dict must not matter
+                            r0 = call_client(c0, rec0, [dict(reversed(list(vals.items())))], {})
                         else:
                             r0 = call_client(c0, rec0, [], {client_param_name(c0): dict(vals)})
                     except Exception as e:   # noqa
